@@ -72,6 +72,75 @@ class Readers:
         return res
 
 
+# ---------------------------------------------------------------------------
+# liveness: is a typed literal ever handed to its reader?
+# ---------------------------------------------------------------------------
+class Liveness:
+    def __init__(self, ctx, readers):
+        self.ctx, self.readers = ctx, readers
+        self.calls = {}   # function name -> call nodes in the CLI
+        for m in cli_modules(ctx):
+            for c in ast.walk(m.tree):
+                if isinstance(c, ast.Call):
+                    n = c.func.id if isinstance(c.func, ast.Name) else (c.func.attr if isinstance(c.func, ast.Attribute) else None)
+                    if n:
+                        self.calls.setdefault(n, []).append(c)
+        self.memo = {}
+
+    def _reads(self, t: str, key: str) -> Optional[bool]:
+        info = self.readers.info(t)
+        if info is None or info.open:
+            return None
+        return key in info.mandatory or key in info.may or key in info.ref_keys
+
+    def slot_dead(self, node, depth=0) -> Optional[str]:
+        """reason if the value at `node` sits in a slot no reader looks at"""
+        if depth > 6:
+            return None
+        p = getattr(node, '_parent', None)
+        child = node
+        while p is not None and isinstance(p, (ast.List, ast.Tuple, ast.BinOp, ast.IfExp, ast.Starred)):
+            child, p = p, getattr(p, '_parent', None)
+        if isinstance(p, ast.Dict):
+            key = None
+            for k, v in zip(p.keys, p.values):
+                if v is child:
+                    key = k.value if isinstance(k, ast.Constant) else None
+            t = literal_type(p)
+            if t is not None and key is not None and self._reads(t, key) is False:
+                return f"key '{key}' of the enclosing {t} object is never read by {t}.from_json"
+            return self.slot_dead(p, depth + 1)
+        fn = enclosing_function(node)
+        if isinstance(p, ast.Assign) and len(p.targets) == 1:
+            tg = p.targets[0]
+            if isinstance(tg, ast.Subscript) and isinstance(tg.value, ast.Name) and isinstance(tg.slice, ast.Constant) and fn is not None:
+                # X['k'] = <node>: type of X from its literal in the same function
+                for d in ast.walk(fn):
+                    if isinstance(d, ast.Assign) and isinstance(d.value, ast.Dict) and any(isinstance(x, ast.Name) and x.id == tg.value.id for x in d.targets):
+                        t = literal_type(d.value)
+                        if t is not None and self._reads(t, tg.slice.value) is False:
+                            return f"key '{tg.slice.value}' of the {t} object `{tg.value.id}` is never read by {t}.from_json"
+                return None
+            if isinstance(tg, ast.Name) and fn is not None:
+                # variable: dead only if every use is a return and every call site of the function is dead
+                uses = [n for n in ast.walk(fn) if isinstance(n, ast.Name) and n.id == tg.id and isinstance(n.ctx, ast.Load)]
+                if uses and all(isinstance(getattr(u, '_parent', None), ast.Return) for u in uses):
+                    return self.calls_dead(fn, depth)
+                return None
+        if isinstance(p, ast.Return) and fn is not None:
+            return self.calls_dead(fn, depth)
+        return None
+
+    def calls_dead(self, fn, depth) -> Optional[str]:
+        sites = self.calls.get(fn.name, [])
+        if not sites:
+            return None
+        reasons = [self.slot_dead(c, depth + 1) for c in sites]
+        if all(reasons):
+            return f"returned by {fn.name}(), whose only use: {reasons[0]}"
+        return None
+
+
 def literal_type(d: ast.Dict) -> Optional[str]:
     for k, v in zip(d.keys, d.values):
         if isinstance(k, ast.Constant) and k.value == 'type' and isinstance(v, ast.Constant) and isinstance(v.value, str):
@@ -141,7 +210,7 @@ def check_types_and_keys(ctx, rep):
     if len(lits) < 60:
         raise AnalysisError(f"only {len(lits)} typed dict literals found in the CLI")
     rep.analysed['typed_literals'] = len(lits)
-    tag_cache: Dict[str, Optional[str]] = {}
+    live = Liveness(ctx, readers)
     from sa.jsonkeys import const_key
     for m, fn, d, t, var in lits:
         fname = fn.name if fn is not None else '<module>'
@@ -149,6 +218,10 @@ def check_types_and_keys(ctx, rep):
         idt = ast.unparse(idv)[:40] if idv is not None else '?'
         key = f"{m.name.split('.')[-1]}.{fname}::{t}::{idt}"
         W = where(m, d)
+        dead = live.slot_dead(d)
+        if dead:
+            rep.excluded('C19.T', key, W, f"dead configuration, never handed to a reader: {dead}")
+            continue
         ci = readers.resolve_type(t)
         external = not t.startswith(ctx.prog.package) and '.' in t
         rep.check('C19.T', key, ci is not None or external, W, {'type': t},
@@ -385,9 +458,12 @@ def run(ctx, rep):
     rep.rule('C19.J', "Jacobians: collected after constraints became transforms, tree Jacobian for ratio heights, none for log-scale GMRF, counted once, identical in advi/hmc/mcmc, samplers target joint.jacobian")
     rep.rule('C19.U', "make_unconstrained: transform codomain = constraint; unconstrained value = inverse transform of the requested value; constrained tensor removed")
     rep.rule('C19.R', "identifiers referenced by loggers / samplers / Jacobian lists / reference-typed keys unify with an identifier template defined by the builders")
+    rep.rule('C19.E', "every option value the parsers accept has a handler: under each accepted value no local is read where no assignment can reach it")
+    rep.rule('C19.N', "tensor-only torch functions are never applied to a plain Python number in the builders")
     rep.not_decided += ["finiteness of density and gradient at the initial point", "pairwise option coverage at run time", "plugins"]
-    from props import c19_ids
-    steps = ((check_types_and_keys, 'C19.K'), (check_jacobians, 'C19.J'), (check_make_unconstrained, 'C19.U'), (c19_ids.check_ids, 'C19.R'))
+    from props import c19_ids, c19_flow
+    steps = ((check_types_and_keys, 'C19.K'), (check_jacobians, 'C19.J'), (check_make_unconstrained, 'C19.U'), (c19_ids.check_ids, 'C19.R'),
+             (c19_flow.check_exhaustive, 'C19.E'), (c19_flow.check_pynum, 'C19.N'))
     for f, rule in steps:
         try:
             f(ctx, rep)
